@@ -53,7 +53,7 @@ def goals(points, results):
                 call = "sersic1d lg %s" % " ".join(q(a[k]) for k in ("r", "flux", "re", "n"))
             out.append((i, p["fn"],
                         "Goal forall lg : R -> R, %s <= lg (2 * %s) <= %s -> Rabs (%s - %s) <= %s.\n"
-                        "Proof. intros lg H. unfold %s. guards. powers. set (L := lg _) in *. interval with (i_prec 80). Qed."
+                        "Proof. intros lg H. unfold %s; try unfold sersic2d_zsq. guards. powers. set (L := lg _) in *. interval with (i_prec 80). Qed."
                         % (q(g - Fraction(1, 10**11) * (1 + abs(g))), q(a["n"]), q(g + Fraction(1, 10**11) * (1 + abs(g))), call, q(v), q(tol), p["fn"])))
         elif p["fn"] == "gauss_fourier":
             re, im = (Fraction(float.fromhex(x)) for x in r["value"])
